@@ -303,7 +303,18 @@ def check_extraction(ctx, res: Result, dotted, _seen=None, delegated: bool = Fal
         # (N) node metadata: every node-creating call is followed by a transfer loop over the extract's nodes (or over
         # the very collection that was added), and no node is created after the last transfer
         creators = _calls_on(ctx, v, h, ("add_node", "add_nodes", "add_edge", "add_edges"))
-        if not node_loops:
+        # whole-node-set insertions that carry the source's node metadata along: h.add_nodes(all nodes, metadata=<of self>)
+        meta_adds = set()
+        for ev in creators:
+            if ev.view is v and ev.meth in ("add_nodes",):
+                m_ = _arg(ev.call, 1, "metadata")
+                if m_ is not None and any(isinstance(x, ast.Name) and x.id == "self" for x in ast.walk(v.inline(m_))):
+                    cid_ = v.cfg_id(ev.at)
+                    if cid_ is not None:
+                        meta_adds.add(cid_)
+        if not node_loops and meta_adds:
+            pass  # decided path by path below
+        elif not node_loops:
             # metadata may be handed over at creation time: h.add_node(n, metadata=self.get_node_metadata(n)) is not an idiom of this code base
             if _helpers_given(ctx, v, h) or any("metadata" in [k.arg for k in ev.call.keywords] for ev in creators if ev.meth in ("add_node", "add_nodes")):
                 res.unknown("X-NMETA", f, f"for node in {h}.get_nodes(): {h}.set_node_metadata(node, self.get_node_metadata(node))", "transfer", "no node-metadata transfer loop recognised", loc(v.fi, v.fi.node))
@@ -316,10 +327,16 @@ def check_extraction(ctx, res: Result, dotted, _seen=None, delegated: bool = Fal
             if any(ev.at in list(ast.walk(l)) for l in node_loops):
                 continue
             covered = True
+            if cid in meta_adds:
+                res.ok("X-NMETA", ev.view.fi.short, norm(c), "with-metadata", loc(ev.view.fi, c))
+                continue
             for r in rets:
                 rid = v.cfg_id(r)
                 if r.value.id == h and v.cfg.reachable(cid, rid) and v.cfg.reaches_without(cid, rid, loop_ids - {cid}):
-                    covered = False
+                    # no transfer afterwards: fine only when every path to this call went through an insertion of ALL nodes
+                    # together with their metadata (then no node is new here)
+                    if not meta_adds or v.cfg.reaches_without(v.cfg.entry, cid, meta_adds):
+                        covered = False
             if cid in loop_ids and ev.view is not v:
                 # created and transferred inside the same helper call: the helper's own order decides
                 hl = _transfer_loops(ctx, ev.view, ev.hname, "set_node_metadata", "get_node_metadata")
